@@ -280,7 +280,7 @@ F9 == {Prog("F9", <<S(Asg("=", d, l))>>) : d \in Dst9, l \in Leaf9}
 RegDst == {Var("X"), Var("Y"), Var("c")}
 Modified == {Var("a"), Idx("arr", Num(2)), Var("s")}
 Modifier(v) == {S(Inc(FALSE, 1, v)), S(Inc(FALSE, -1, v)), S(Inc(TRUE, 1, v)), S(Asg("+", v, Num(1))), S(Asg("-", v, Var("b"))), S(Asg("=", v, Var("b"))),
-                S(Asg("<<", v, Num(1))), S(Asg(">>", v, Num(1))), S(Asg("|", v, Num(128))), S(Asg("=", v, Num(0)))}
+                S(Asg("<<", v, Num(1))), S(Asg(">>", v, Num(1))), S(Asg("|", v, Num(128))), S(Asg("=", v, Num(0))), S(Asg("=", v, Var("X"))), S(Asg("=", v, Var("Y")))}
                 \cup (IF v = Var("a") THEN {S(Call("h", <<>>))} ELSE {})
 F8 == UNION {{Prog("F8", <<S(Asg("=", r, v)), m, S(Asg("=", r, v)), S(Asg("=", Var("b"), r))>>) : r \in RegDst, m \in Modifier(v)} : v \in Modified}
       \cup UNION {{Prog("F8", <<S(Asg("=", r, v)), S(Asg("=", Var("t"), r)), m, S(Asg("=", r, v)), S(Asg("=", Idx("arr", Num(5)), r))>>) : r \in {Var("X"), Var("Y")}, m \in Modifier(v)} : v \in {Var("a"), Idx("arr", Num(2))}}
@@ -376,6 +376,8 @@ F2d == {Prog("F2d", <<If(Bin(lop, p, q), <<Set("X", 1)>>, <<If(r, <<Set("X", 2)>
 F2e == {Prog("F2e", <<If(g, <<t>>, <<If(Bin(op, Var("a"), k), <<Set("X", 1)>>, <<Set("X", 2)>>)>>)>>) : g \in {Bin("==", Var("a"), Num(0)), Bin("<", Var("a"), Num(2)), Bin(">=", Var("a"), Var("b"))},
           t \in {S(Asg("=", Var("c"), Bin("-", Var("a"), Var("b")))), S(Asg("=", Var("c"), Bin("+", Var("a"), Num(200)))), S(Asg("=", Var("c"), Bin("<", Var("b"), Num(9))))},
           op \in {">", "<=", ">=", "<"}, k \in {Num(1), Var("b")}}
+       \cup {Prog("F2e", <<If(Bin("==", v, Num(0)), <<t>>, <<If(Bin(op, v, Num(0)), <<Set("X", 1)>>, <<Set("X", 2)>>)>>)>>) : v \in {Var("sa"), Var("a"), Var("X")},
+          t \in {S(Asg("=", Var("c"), Bin("-", Var("a"), Var("b")))), S(Asg("=", Var("c"), Bin("+", Var("a"), Num(200))))}, op \in {">", "<=", ">=", "<"}}
 \* FK: identifiers that begin with a keyword (elsev, returnv, dov) right where the keyword could stand
 FK == {Prog("FK", <<If(g, <<Set("b", 1)>>, <<>>), Set("elsev", 2), S(Asg("=", Var("c"), Var("elsev")))>>) : g \in {Var("a"), Bin("<", Var("a"), Var("b"))}}
       \cup {Prog("FK", <<Set("returnv", 3), S(Inc(FALSE, 1, Var("returnv"))), S(Asg("=", Var("c"), Var("returnv")))>>),
